@@ -2,8 +2,11 @@ import PandoraModel.Properties.C12
 import PandoraModel.Properties.C12Kernels
 import PandoraModel.Properties.C12KernelsBounds
 import PandoraModel.Properties.C12KernelsSampled
+import PandoraModel.Properties.C12KernelsRiskSampled
 import PandoraModel.Properties.C12Names
 import PandoraModel.Properties.C12KernelsRegul
+import PandoraModel.Properties.C12KernelsGraphReg
+import PandoraModel.Properties.C12KernelsBorders
 open Pandora.C12
 -- tie to the source
 #print axioms stems_from_source
@@ -91,3 +94,19 @@ open Pandora.C12
 #print axioms Pandora.C12KernelsRegul.closeRow_core
 #print axioms Pandora.C12KernelsRegul.createConnectedGraph_generated_eq
 #print axioms Pandora.C12KernelsRegul.intervalRegularization_over_generated
+-- compute_risk_and_sampled_risk regenerated = (pixelRisk, pixelSampledRisk) (Properties/C12KernelsRiskSampled.lean)
+#print axioms Pandora.C12Kernels.pixelRisk_eq_mean
+#print axioms Pandora.C12Kernels.computeRiskSampled_generated_eq
+-- the aggregation loop of graph_regularization regenerated = Confidence.graphRegularization (Properties/C12KernelsGraphReg.lean)
+#print axioms Pandora.C12KernelsRegul.agg_eq
+#print axioms Pandora.C12KernelsRegul.setSlice_eq
+#print axioms Pandora.C12KernelsRegul.graphRegularization_generated_eq
+#print axioms Pandora.C12KernelsRegul.intervalRegularization_all_generated
+#print axioms Pandora.C12KernelsRegul.quantile1_widens_generated
+-- the segment extraction and the whole interval_regularization regenerated = the hand model (Properties/C12KernelsBorders.lean)
+#print axioms Pandora.C12KernelsRegul.whereEq_left
+#print axioms Pandora.C12KernelsRegul.whereEq_right
+#print axioms Pandora.C12KernelsRegul.regulBorders_generated_eq
+#print axioms Pandora.C12KernelsRegul.length_borders
+#print axioms Pandora.C12KernelsRegul.intervalRegularization_generated_eq
+#print axioms Pandora.C12KernelsRegul.quantile1_widens_whole_generated
